@@ -804,6 +804,10 @@ func (e *Env) callExpr(ex *ast.CallExpr) (SVal, error) {
 			return mkInt(t), nil
 		}
 		return SVal{}, fmt.Errorf("%s undefined on this path", key)
+	case "did_store":
+		// did_store(cell): an atomic Store into the cell was made on this path
+		_, ok := e.St.Named["stored("+argStr(0)+")"]
+		return mkBool(boolLit(ok)), nil
 	case "did_load":
 		_, ok := e.St.Named["loaded("+argStr(0)+")"]
 		return mkBool(boolLit(ok)), nil
